@@ -1,7 +1,7 @@
 """C03 -- Reed-Solomon block layout and validity."""
 import enc, gen, sweep, encprop
 
-TOP = ['theories/Props/C03.v', 'theories/Tie/TieTables.v']
+TOP = ['theories/Props/C03.v', 'theories/Tie/TieTables.v', 'theories/Tie/TieEcc.v']
 WANT = ('c03',)
 RULE = ('all 168 (version, level) layouts with random data of random length (both tiers), plus random cases; on every implementation '
         'matrix the extracted oracle de-interleaves by ISO Table 9 and evaluates all syndromes over GF(256)')
